@@ -30,11 +30,11 @@ KEYS = ("waiter_invocations", "multi_waiter_events", "failed_events", "escapes_m
 
 
 def plan(tier):
-    return {"shards": 4, "timeout": 300} if tier == "quick" else {"shards": 16, "timeout": 1500}
+    return {"shards": 4, "timeout": 300} if tier == "quick" else {"shards": 16, "timeout": 3400}
 
 
 def ncases(tier):
-    return 8000 if tier == "quick" else 25000
+    return 8000 if tier == "quick" else 80000
 
 
 def one_case(ctx, prog):
